@@ -292,6 +292,11 @@ class Variogram(object):
             # handle maxlag for MetricSpace
             if maxlag and not isinstance(maxlag, str) and maxlag >= 1:
                 _maxlag = maxlag
+
+                # user-defined lag edges replace maxlag by their largest
+                # edge, the distances must not be truncated below it
+                if isinstance(bin_func, (list, tuple, np.ndarray)):
+                    _maxlag = max(_maxlag, float(np.nanmax(bin_func)))
             else:
                 _maxlag = None
 
